@@ -33,7 +33,8 @@ BASE_OF = {"N": spydrnet.ir.netlist.Netlist, "L": spydrnet.ir.library.Library,
            "C": spydrnet.ir.cable.Cable, "I": spydrnet.ir.instance.Instance,
            "Q": spydrnet.ir.innerpin.InnerPin, "W": spydrnet.ir.wire.Wire}
 KEYMAP = {"name": ".NAME", "eid": "EDIF.identifier", "ns": ".NS", "k": "k", "props": "EDIF.properties"}
-MODELLED_KEYS = set(KEYMAP.values()) | {"VERILOG.InlineConstraints", "VERILOG.Parameters"}
+MODELLED_KEYS = set(KEYMAP.values()) | {"VERILOG.InlineConstraints", "VERILOG.Parameters", "EBLIF.type",
+                                         "EBLIF.cname", "EBLIF.attr", "EBLIF.param"}
 
 
 class HarnessError(Exception):
@@ -107,7 +108,7 @@ def _data(e):
     rec = {"name": _val(d[".NAME"]) if ".NAME" in d else "",
            "eid": _val(d["EDIF.identifier"]) if "EDIF.identifier" in d else "",
            "ns": _val(d[".NS"]) if ".NS" in d else "",
-           "k": _val(d["k"]) if "k" in d else "", "props": _props(d["EDIF.properties"]) if "EDIF.properties" in d else "", "vattr": _vattr(d)}
+           "k": _val(d["k"]) if "k" in d else "", "props": _props(d["EDIF.properties"]) if "EDIF.properties" in d else "", "vattr": _vattr(d), "eb": _eb(d)}
     if other:
         rec["other"] = json.dumps(other, sort_keys=True, default=repr)
     return rec
@@ -120,6 +121,20 @@ def _vattr(d):
         v = d[key] if key in d else None
         if isinstance(v, dict) and v:
             parts.append(tag + ":" + ",".join("%s=%s" % (a, str(b).strip('"') if b is not None else "") for a, b in sorted(v.items())))
+    return ";".join(parts)
+
+
+def _eb(d):
+    """what an EBLIF-read instance carries (.subckt/.gate/.names/.latch, .cname, .attr, .param), as one string"""
+    if "EBLIF.type" not in d:
+        return ""
+    parts = ["type=" + str(d["EBLIF.type"]).replace("EBLIF.", "")]
+    if "EBLIF.cname" in d:
+        parts.append("cname=" + str(d["EBLIF.cname"]))
+    for key, tag in (("EBLIF.attr", "attr"), ("EBLIF.param", "param")):
+        v = d[key] if key in d else None
+        if isinstance(v, dict) and v:
+            parts.append(tag + ":" + ",".join("%s=%s" % (a, b) for a, b in sorted(v.items())))
     return ";".join(parts)
 
 
@@ -795,6 +810,47 @@ def _x_vlog_rt(reg, c):
     return [("N", new)] if new is not None else []
 
 
+def _x_eblif_read(reg, c):
+    """render netlist n of the current abstract state as EBLIF with the independent writer, parse it"""
+    import eblif_text
+    st = project(reg)
+    try:
+        text = eblif_text.render(st, c["n"], c.get("opts", {}))
+    except eblif_text.Unrenderable as e:
+        raise HarnessError("design not expressible in EBLIF: %s" % e)
+    path = _tmpfile(".eblif")
+    try:
+        with open(path, "w") as f:
+            f.write(text)
+        new = sdn.parse(path)
+        reg.last_extra = {"policy_after": _val(sdn.namespace_manager.default), "text_len": len(text)}
+    finally:
+        os.unlink(path)
+    return [("N", new)]
+
+
+def _x_eblif_rt(reg, c):
+    """write netlist n with the real EBLIF writer, read the file back with the real reader"""
+    path = _tmpfile(".eblif")
+    extra = {}
+    new = None
+    try:
+        sdn.compose(reg.get("N", c["n"]), path)
+        try:
+            new = sdn.parse(path)
+            extra["reader_accepts"] = True
+        except CallTimeout:
+            raise
+        except Exception as e:
+            extra["reader_accepts"] = False
+            extra["reader_error"] = "%s: %s" % (type(e).__name__, str(e)[:200])
+    finally:
+        if os.path.exists(path):
+            os.unlink(path)
+    reg.last_extra = extra
+    return [("N", new)] if new is not None else []
+
+
 def _x_compare(reg, c):
     from spydrnet.compare.compare_netlists import Comparer
     import io
@@ -820,7 +876,7 @@ def _x_clone(reg, c):
     return [(c["kind"], new)]
 
 
-QUERY_OPS = {"vlog_read": _x_vlog_read, "vlog_rt": _x_vlog_rt, "edif_read": _x_edif_read, "edif_rt": _x_edif_rt, "compare": _x_compare, "q": _q_query, "clone": _x_clone, "hq": _q_hq, "hcheck": _q_hcheck, "uniquify": _x_uniquify, "flatten": _x_flatten}
+QUERY_OPS = {"eblif_read": _x_eblif_read, "eblif_rt": _x_eblif_rt, "vlog_read": _x_vlog_read, "vlog_rt": _x_vlog_rt, "edif_read": _x_edif_read, "edif_rt": _x_edif_rt, "compare": _x_compare, "q": _q_query, "clone": _x_clone, "hq": _q_hq, "hcheck": _q_hcheck, "uniquify": _x_uniquify, "flatten": _x_flatten}
 
 
 class CallTimeout(Exception):
@@ -857,7 +913,7 @@ def execute(reg, c):
     for kind, obj in created:
         if obj is not None:
             reg.bind(kind, obj)
-    if c["op"] in ("clone", "edif_read", "edif_rt", "vlog_read", "vlog_rt"):
+    if c["op"] in ("clone", "edif_read", "edif_rt", "vlog_read", "vlog_rt", "eblif_read", "eblif_rt"):
         reg.last_ret = [reg.id_of(created[0][1], created[0][0])] if created else []
         reg.last_info = []
     return "ok", ""
@@ -930,7 +986,8 @@ def project_mirror(reg):
         rec = {"name": _val(d[".NAME"]) if ".NAME" in d else "",
                "eid": _val(d["EDIF.identifier"]) if "EDIF.identifier" in d else "",
                "ns": _val(d[".NS"]) if ".NS" in d else "", "k": _val(d["k"]) if "k" in d else "",
-               "props": _props(d["EDIF.properties"]) if "EDIF.properties" in d else "", "vattr": _vattr(d)}
+               "props": _props(d["EDIF.properties"]) if "EDIF.properties" in d else "", "vattr": _vattr(d),
+               "eb": _eb(d)}
         if other:
             rec["other"] = json.dumps(other, sort_keys=True, default=repr)
         return rec
